@@ -334,7 +334,7 @@ class SpawnProcess(multiprocessing.context.SpawnProcess):
         terminates with an exception, the exception is raised.
         """
         super().join(timeout=timeout)
-        if not self.done():
+        if not self._exited():
             # timed out
             return
 
@@ -368,12 +368,20 @@ class SpawnProcess(multiprocessing.context.SpawnProcess):
         """
         return self.exitcode is not None
 
+    def _exited(self) -> bool:
+        # Whether the child process has ended, judged by its sentinel.
+        # Unlike ``exitcode`` (i.e. ``os.waitpid``), this does not compete for the exit status
+        # with the result collector thread, which polls ``exitcode`` when the child was
+        # terminated; the thread that loses that race sees ``exitcode`` as ``None`` for a moment,
+        # which ``join`` used to take for a timeout.
+        return bool(multiprocessing.connection.wait([self.sentinel], 0))
+
     def result(self, timeout: float | int | None = None):
         """
         Behavior is similar to ``concurrent.futures.Future.result``.
         """
         self.join(timeout)
-        if not self.done():
+        if not self._exited():
             raise TimeoutError
         return self._future_.result()
 
@@ -382,7 +390,7 @@ class SpawnProcess(multiprocessing.context.SpawnProcess):
         Behavior is similar to ``concurrent.futures.Future.exception``.
         """
         super().join(timeout)
-        if not self.done():
+        if not self._exited():
             raise TimeoutError
         self._result_collector_thread_.join()
         return self._future_.exception()
